@@ -237,7 +237,7 @@ models.EXACT['serde_json::to_string'] = _serde_to_string
 class NativeImpl:
     """one native_obs process per profile; a request that panics or hangs is reported, the process survives panics"""
 
-    def __init__(self, binary, timeout=10.0):
+    def __init__(self, binary, timeout=30.0):
         self.binary = binary
         self.timeout = timeout
         self.p = None
